@@ -395,7 +395,12 @@ Definition fs_initialize (c : cfg) (s : sys) (rootp : str) : sys * outc :=
       match index_tape c (tp s) 0 0 None true false (db s) with
       | (p, Ok _) => let '(p, r) := get_root_path p in
                      (set_db s p, match r with Some _ => OOk | None => OOther 30 end)
-      | (p, _) => mkdir_root (set_db s p)
+      | (p, _) =>
+        (* a damaged tail: keep what could be indexed if it contains a root *)
+        match get_root_path p with
+        | (p', Some _) => (set_db s p', OOk)
+        | (p', None) => mkdir_root (set_db s p')
+        end
       end
     end
   end.
